@@ -15,7 +15,7 @@
 From Coq Require Import String.
 From Coq Require Import List Bool NArith.
 Import ListNotations.
-From JS Require Import Model.Base Model.Shape Model.Gen Proofs.GenPaths Proofs.GenFixes.
+From JS Require Import Model.Base Model.Shape Model.Gen Model.GenClass Proofs.GenPaths Proofs.GenFixes Proofs.GenNameClass.
 
 (* the path clause: every collection name that is not an absolute path, dots included
    (code after fix 6d32756: target.join(format!("{collection_name}.gen.shape.rs"))) *)
@@ -41,6 +41,20 @@ Theorem C16_name_inj_refuted :
   exists a b, wf a = true /\ wf b = true /\ a <> b /\ shape_name a = shape_name b.
 Proof. exact name_inj_refuted. Qed.
 Print Assumptions C16_name_inj_refuted.
+
+(* the class of known finding KF4, as a theorem: the name is computed from constructors, flags and the TYPES of
+   members / variants / elements in order - never from member names - so shapes that agree on those
+   (same_types, decidable, Model/GenClass.v) get one name; the Example shows two different well-formed shapes in
+   the class *)
+Theorem C16_name_collision_class : forall a b, same_types a b = true -> shape_name a = shape_name b.
+Proof. exact same_types_name. Qed.
+Print Assumptions C16_name_collision_class.
+
+Example C16_name_collision_class_inhabited :
+  let a := SObject [([97%N], SNumber false)] false in
+  let b := SObject [([98%N], SNumber false)] false in
+  wf a = true /\ wf b = true /\ a <> b /\ same_types a b = true.
+Proof. exact same_types_differ. Qed.
 
 Theorem C16_file_is_header_plus_text :
   forall (E : Type) (infer : list text -> outcome E shape) cwd od name srcs w txt tr,
